@@ -7324,6 +7324,40 @@ let chk_C18_values p o =
   | [] -> chk_C18_values_fns (functions_of p) o.o_fns
   | _ :: _ -> true
 
+(** val block_summary : block -> n list **)
+
+let rec block_summary b =
+  let { b_values = vals; b_inner = inner; b_labels = labels; b_reg = reg;
+    b_mret = mret; b_ctx = ctx; b_kids = kids } = b
+  in
+  app
+    ((N.of_nat (length vals)) :: ((N.of_nat (length inner)) :: ((N.of_nat
+                                                                  (length
+                                                                    labels)) :: (reg :: ((
+    if mret then Npos XH else N0) :: ((N.of_nat (length ctx)) :: ((N.of_nat
+                                                                    (length
+                                                                    kids)) :: [])))))))
+    (let rec go = function
+     | [] -> []
+     | k :: ks' -> app (block_summary k) (go ks')
+     in go kids)
+
+(** val summary : run_result -> n list **)
+
+let summary = function
+| ROk o ->
+  app ((Npos
+    XH) :: ((N.of_nat (length o.o_errors)) :: ((N.of_nat
+                                                 (length o.o_globals.g_types)) :: (
+    (N.of_nat (length o.o_globals.g_consts)) :: ((N.of_nat
+                                                   (length
+                                                     o.o_globals.g_funcs)) :: (
+    (N.of_nat (length o.o_gstack)) :: ((if chk_C09 o then Npos XH else N0) :: ((
+    if chk_C12 o then Npos XH else N0) :: []))))))))
+    (flat_map block_summary o.o_fns)
+| RPanic _ -> (Npos (XO XH)) :: []
+| ROutOfFuel -> (Npos (XI XH)) :: []
+
 type json =
 | JNull
 | JBool of bool
